@@ -123,6 +123,16 @@ int main(int argc, char **argv)
       const struct usrc *s = i < nf ? univ_fix(i) : univ_corpus(i - nf);
       for (int k = 0; k < NCFG; k++, idx++) { if (!mc_mine(idx) || mc_deadline()) continue; one_load(s, &CFG[k]); }
     }
+    /* fixtures: every single (normal type, filter) deviation once more with the special objects kept (Misc and I/O KEEP_ALL):
+     * merging or dropping a normal level has to move the special children of the objects it removes (seeded change
+     * C01-keepstructure-misc-arity needs Package=KEEP_STRUCTURE together with Misc=KEEP_ALL, a pair the bound-1 list lacks) */
+    for (int i = 0; i < nf; i++) for (int ty = 0; ty < HWLOC_OBJ_TYPE_MAX; ty++) for (int v = 0; v < 4; v++, idx++) {
+      if (!mc_mine(idx) || mc_deadline()) continue;
+      if (!hwloc_obj_type_is_normal((hwloc_obj_type_t)ty)) continue;
+      struct ucfg c; ucfg_default(&c); c.filt[HWLOC_OBJ_MISC] = HWLOC_TYPE_FILTER_KEEP_ALL; c.group_setter = 3; c.group_filter = HWLOC_TYPE_FILTER_KEEP_ALL; c.filt[ty] = v;
+      one_load(univ_fix(i), &c);
+      mc_count("loads_with_special_objects_kept", 1);
+    }
     mc_sample("xml %s x %d configurations", univ_fix(0)->name, NCFG);
   } else if (!strcmp(stage, "small2")) {
     /* U_small x deviation bound 2 x all 256 flag words */
